@@ -179,6 +179,10 @@ def design_flat(r, name):
             # most-specific pick: in a fallible conversion the `try_` instruction wins over the plain one written first
             fa.append("#[map(x)]")
             fa.append(f"#[try_map({tgt})]")
+        elif f["kind"] == "rename" and extra and not fallible and not f.get("narrow") and random.Random(f"{name}-ded-{f['k']}").random() < 0.3:
+            # most-specific pick: the instruction dedicated to the counterpart is in force, although a default one that
+            # applies to the same conversions is written above it (own random stream: the other choices stay as they were)
+            fa += ["#[map(x)]", f"#[map(A| {tgt})]"]
         elif f["kind"] == "rename" and f.get("narrow") == "into":
             fa += [f"#[into(x)]", f"#[into_existing(x)]", f"#[map({tgt})]"]
         elif f["kind"] == "rename" and f.get("narrow"):
